@@ -8,6 +8,7 @@ import (
 	"crypto/sha256"
 	"encoding/binary"
 	"fmt"
+	"os"
 	"strings"
 	"time"
 
@@ -17,8 +18,15 @@ import (
 
 // Bounds of one exploration.
 type Bounds struct {
-	P, E    int
-	MaxExec int64 // cap on executions per level (0 = none)
+	// P bounds scheduling deviations. By default EVERY scheduling decision other than the
+	// default one costs 1 (default = keep running the current thread; when it blocks or ends, run
+	// the enabled thread with the lowest id; the virtual clock last) - "delay bounding". With
+	// FreeSwitch only preemptions (switching away from a still enabled thread, or letting a
+	// timer fire while threads are runnable) cost 1 and the choice of the successor of a blocked
+	// thread is free - classic preemption bounding, feasible only for small harnesses.
+	P, E       int
+	FreeSwitch bool
+	MaxExec    int64 // cap on executions per level (0 = none)
 }
 
 // Scenario is a closed harness: Body runs as thread 0 and reports oracle failures with e.Fail.
@@ -119,13 +127,13 @@ func (x *explorer) run(prefix []step) (*vsched.Outcome, string) {
 	return o, c.diverged
 }
 
-func cost(c *vsched.Choice, alt int) (p, e int) {
+func cost(c *vsched.Choice, alt int, freeSwitch bool) (p, e int) {
 	if alt == 0 {
 		return 0, 0
 	}
 	switch c.Kind {
 	case vsched.KSched:
-		if alt == c.Clk || c.Cur {
+		if alt == c.Clk || c.Cur || !freeSwitch {
 			return 1, 0
 		}
 		return 0, 0
@@ -253,7 +261,7 @@ func (x *explorer) explore(prefix []step, depth int) {
 		c := &o.Choices[i]
 		if i >= len(prefix) {
 			for alt := 1; alt < c.N; alt++ {
-				cp, ce := cost(c, alt)
+				cp, ce := cost(c, alt, x.b.FreeSwitch)
 				if up+cp > x.b.P || ue+ce > x.b.E {
 					continue
 				}
@@ -266,7 +274,7 @@ func (x *explorer) explore(prefix []step, depth int) {
 				}
 			}
 		}
-		cp, ce := cost(c, c.Pick)
+		cp, ce := cost(c, c.Pick, x.b.FreeSwitch)
 		up += cp
 		ue += ce
 	}
@@ -290,7 +298,11 @@ func trunc(l []string, n int) []string {
 // Run explores every scenario within the tier's bounds and records results in sh.
 func Run(sh *evidence.Shard, scs []*Scenario) {
 	env := sh.Env()
+	only := os.Getenv("VERIF_ONLY")
 	for _, sc := range scs {
+		if only != "" && !strings.Contains(sc.Name, only) {
+			continue
+		}
 		b := sc.Quick
 		if env.Thorough() {
 			b = sc.Thorough
@@ -307,7 +319,7 @@ func Run(sh *evidence.Shard, scs []*Scenario) {
 		}
 		levels := []Bounds{}
 		for k := 0; k <= max(b.P, b.E); k++ {
-			levels = append(levels, Bounds{P: min(k, b.P), E: min(k, b.E), MaxExec: b.MaxExec})
+			levels = append(levels, Bounds{P: min(k, b.P), E: min(k, b.E), MaxExec: b.MaxExec, FreeSwitch: b.FreeSwitch})
 		}
 		var done []string
 		var last *explorer
@@ -332,6 +344,7 @@ func Run(sh *evidence.Shard, scs []*Scenario) {
 			part.Bounds = map[string]any{}
 		}
 		part.Bounds["P"] = b.P
+		part.Bounds["deviation_rule"] = map[bool]string{true: "preemption bounding (successor of a blocked thread is a free choice)", false: "delay bounding (every non-default scheduling decision costs 1)"}[b.FreeSwitch]
 		part.Bounds["E"] = b.E
 		part.Bounds["levels_completed(shard-local executions)"] = done
 		part.Count("scheduling_steps", last.points)
@@ -411,4 +424,22 @@ func Main(t interface {
 	if sh.NViolations() > 0 || len(sh.Infra) > 0 {
 		t.Fatalf("violations=%d infra=%v", sh.NViolations(), sh.Infra)
 	}
+}
+
+// Probe runs the default schedule of every scenario once and returns per-scenario statistics
+// (steps, recorded choice points, threads) - used to size bounds.
+func Probe(scs []*Scenario) []string {
+	var out []string
+	for _, sc := range scs {
+		x := &explorer{sc: sc}
+		o, _ := x.run(nil)
+		pre := 0
+		for _, c := range o.Choices {
+			if c.Kind == vsched.KSched {
+				pre += c.N - 1
+			}
+		}
+		out = append(out, fmt.Sprintf("%s: outcome=%s steps=%d choices=%d alternatives=%d threads=%d switches=%d detail=%s", sc.Name, o.Kind, o.Steps, len(o.Choices), pre, o.Threads, o.Switches, o.Detail))
+	}
+	return out
 }
